@@ -15,7 +15,6 @@ import vlib
 
 ID = "C20"
 LEVEL = "proof"
-NOT_CLAIMED = "in progress"
 TRANSLATORS = ["semiring"]
 MODEL_TARGETS = ["theories/Bound.vo"]
 TECHNIQUE = ("Coq proofs over an executable model of bound.py (strings as byte lists, unbounded lists, all valuations) "
@@ -340,6 +339,7 @@ def search(ctx, B, failing, stats):
         extra.append((names[:k1], names[k1:k1 + k2], names[k1 + k2:k1 + k2 + k3]))
     nval = ctx.n(24, 30)
     sizes = {}
+    want_shapes = {(0, 0, 0), (1, 0, 1), (0, 2, 0), (2, 1, 2), (0, 1, 2), (3, 2, 1)}
     for (x, y, z) in ts + extra:
         xs, ys, zs = list(x), list(y), list(z)
         rng.shuffle(xs); rng.shuffle(ys); rng.shuffle(zs)     # sets: insertion order must not matter
@@ -365,7 +365,8 @@ def search(ctx, B, failing, stats):
                         fail("denotes", f"denotes: {form} text {text!r} does not evaluate to max(max x, sum y) + prod z",
                              dict(inp, form=form, rho=rho), want, {"text": text, "value": got})
                         break
-            if len(samples) < 4 and (len(x), len(y), len(z)) in ((1, 0, 1), (2, 2, 2), (0, 2, 0), (3, 1, 2)):
+            if (len(x), len(y), len(z)) in want_shapes:
+                want_shapes.discard((len(x), len(y), len(z)))
                 samples.append({"x": xs, "y": ys, "z": zs, "normal": texts["normal"], "compact": texts["compact"],
                                 "bound_str": b.bound_str})
             # text form round trip, as sequences
@@ -409,6 +410,25 @@ def search(ctx, B, failing, stats):
                  {"bound": bd.to_dict()}, "X0′≤max(X0,X1)+X2 ∧ X3′≤0", txt.split("\n")[-1])
     except Exception as e:
         fail("raise", f"raise: {type(e).__name__} in FuncResult.__str__", {}, "no exception", vlib.exc_sig(e))
+    # Bound.calculate against an independent column reading (well-formed scalar matrices)
+    ncalc = 0
+    for n in sorted(rng.choice([1, 2, 3, 3, 4, 5, 8]) for _ in range(ctx.n(300, 3000))):   # smallest first
+        vs = [f"X{i}" for i in range(n)]
+        rng.shuffle(vs)
+        m = [[rng.choice("ommwwppi") for _ in range(n)] for _ in range(n)]
+        want = {}
+        for j, name in enumerate(vs):
+            col = [(m[i][j], vs[i]) for i in range(n)]
+            want[name] = ";".join(",".join(sorted(v for c, v in col if c == s)) for s in "mwp")
+        ev += 1; ncalc += 1
+        try:
+            got = Bound().calculate(types.SimpleNamespace(variables=vs, matrix=m)).to_dict()
+        except Exception as e:
+            got = vlib.exc_sig(e)
+        if got != want or (isinstance(got, dict) and list(got) != vs):
+            fail("calculate", "calculate: the bound of variable j is not column j split by scalar",
+                 {"variables": vs, "matrix": m}, want, got)
+    stats["search_calculate_matrices"] = ncalc
     stats["evaluations"] += ev
     stats["search_triples"] = len(ts) + len(extra)
     stats["search_exhaustive_cap"] = 3 if ctx.thorough else 2
